@@ -28,6 +28,10 @@ def gen_cases(tier, seed):
         nodes = []
         k = 1 if sole else r.randint(1, 5)
         spec = [] if sole else [{"p": "src", "k": "d"}, {"p": "src/plain", "k": "f", "size": 10, "seed": 3, "segs": None}, {"p": "src/sub", "k": "d"}]
+        if not sole and r.random() < 0.6:
+            # regular files of various (also owner-only) modes copied by the other workers at the same time as the nodes
+            spec += [{"p": "src/%s%d" % (r.choice(["priv", "sub/priv"]), q), "k": "f", "size": r.choice([0, 100, 70000]), "seed": 20 + q, "segs": None,
+                      "mode": r.choice([0o600, 0o600, 0o400, 0o700, 0o644])} for q in range(r.randint(2, 8))]
         hasblk = False
         for j in range(k):
             kind = r.choice(["fifo", "sock", "chr", "chr", "chr"] + (["blk"] if r.random() < 0.15 else []))
